@@ -250,10 +250,33 @@ def changed_functions(crate):
     return names
 
 
+def translation_diff(crate, names, limit=6000):
+    """unified diff (golden translation vs translation of /repo now) of the named functions' syntax trees,
+    for the replay file of a broken tie"""
+    import difflib
+    def defs(path):
+        try:
+            txt = open(path).read()
+        except Exception:
+            return {}
+        return {m.group(1): m.group(0) for m in
+                re.finditer(r"^Definition (\w+) : [^\n]*? := .*?(?=^Definition |\Z)", txt, re.S | re.M)}
+    old = defs(os.path.join(COQ, "Tie", "golden", "Src_%s.v" % crate))
+    new = defs(os.path.join(GEN, "Src_%s.v" % crate))
+    keys = list(names) + [k for k in sorted(set(old) | set(new))
+                          if k.startswith(("impls_", "structs_", "items_", "all_fns_")) and old.get(k) != new.get(k)]
+    out = []
+    for k in keys:
+        a, b = old.get(k, "").splitlines(), new.get(k, "").splitlines()
+        out += list(difflib.unified_diff(a, b, "golden/" + k, "now/" + k, lineterm="", n=1))
+    txt = "\n".join(out)
+    return txt[:limit] + ("\n... (truncated)" if len(txt) > limit else "")
+
+
 def check_ties(units):
     """Compile the generated Src_<crate>.v and the tie / pin files against it.  Results are cached on the
     content of everything they depend on.  Returns dict(units=[...], lemmas=int, problems=[...])."""
-    res = dict(units=[], lemmas=0, problems=[], changed={})
+    res = dict(units=[], lemmas=0, problems=[], changed={}, diffs={})
     if not units:
         return res
     translate()
@@ -279,10 +302,23 @@ def check_ties(units):
                 p = run(["timeout", "300", "coqc", "-Q", COQ, "BM", "-Q", GEN, "BMGen", src], check=False)
                 if p.returncode != 0:
                     return unit, False, "generated %s does not compile: %s" % (os.path.basename(src), p.stdout[-800:]), nlem
-        p = run(["timeout", "900", "coqc", "-Q", COQ, "BM", "-Q", GEN, "BMGen", "-o", os.path.join(TIEOUT, stem + ".vo"), tie],
+        # compile a copy with `Print Assumptions` appended for every statement: the tie theorems must be axiom-free too
+        srcdir = os.path.join(TIEOUT, "src")
+        os.makedirs(srcdir, exist_ok=True)
+        txt = open(tie).read()
+        names = re.findall(r"^\s*(?:Lemma|Theorem|Example)\s+(\w+)", strip_comments(txt), re.M)
+        secs = set(re.findall(r"^\s*Section\s+(\w+)", txt, re.M))
+        copy = os.path.join(srcdir, stem + ".v")
+        open(copy, "w").write(txt + "\n" + "".join("Print Assumptions %s.\n" % n for n in names))
+        p = run(["timeout", "900", "coqc", "-Q", COQ, "BM", "-Q", GEN, "BMGen", "-Q", srcdir, "BMTieCheck", copy],
                 check=False, timeout=1000)
         ok = p.returncode == 0
-        msg = "" if ok else p.stdout[-1200:]
+        msg = "" if ok else p.stdout[-1200:].replace(srcdir, os.path.join(COQ, "Tie"))
+        if ok:
+            closed = p.stdout.count("Closed under the global context")
+            if closed != len(names) or re.search(r"^Axioms:", p.stdout, re.M):
+                ok = False
+                msg = "axioms reported for statements of %s: %s" % (stem, " ".join(p.stdout.split())[-600:])
         open(cache, "w").write(("ok " if ok else "no ") + msg)
         return unit, ok, msg, nlem
 
@@ -296,6 +332,7 @@ def check_ties(units):
         else:
             ch = changed_functions(crate)
             res["changed"][crate] = ch
+            res.setdefault("diffs", {})[crate] = translation_diff(crate, ch)
             m = re.search(r'File "[^"]*", line (\d+)', msg)
             where = ""
             if m:
@@ -737,6 +774,10 @@ def finish(v, pid, obl, matcher, level, trusted, assumptions, rule, extra=None):
             violations.append("corr")
     if obl["problems"]:
         path = write_replay(pid, n, "proof-obligation", None, "; ".join(obl["problems"]), None, None)
+        if obl.get("translation_diffs"):
+            doc = json.load(open(path))
+            doc["translation_diffs"] = obl["translation_diffs"]
+            json.dump(doc, open(path, "w"), indent=1)
         if violations and all(x != "corr" for x in violations):
             # a failing input was found and reported above; the broken obligation is recorded with it
             log("proof obligations that no longer check are recorded in %s" % path)
